@@ -228,6 +228,23 @@ def replay(ob):
                         return {"reproduced": True, "failing_inputs": fails}
             except Exception as e:  # noqa
                 fails.append({"sg": sg, "observed": "%s: %s" % (type(e).__name__, str(e)[:200])})
+    # crystals with a single atom per cell, origin moved by half a lattice vector in one, two and three directions
+    for sg1 in (221, 123, 47, 191):
+        try:
+            L1 = _sym.letters_of(sg1)
+            at = tr.probe(sg1, [(L1[0], 84, None)])
+            a0 = tr.analyze(at)
+            ref = (a0.get_material_id(), int(a0.get_space_group_number()), sorted((s.wyckoff_letter, s.element, len(s.indices)) for s in a0.get_wyckoff_sets_conventional(False)))
+            for sh in ((0.5, 0.5, 0.5), (0.5, 0, 0), (0, 0.5, 0.5)):
+                v = at.copy()
+                v.set_scaled_positions((at.get_scaled_positions() + np.array(sh)) % 1.0)
+                a = tr.analyze(v)
+                got = (a.get_material_id(), int(a.get_space_group_number()), sorted((s.wyckoff_letter, s.element, len(s.indices)) for s in a.get_wyckoff_sets_conventional(False)))
+                if got != ref:
+                    fails.append({"sg": sg1, "occupied": [L1[0]], "presentation": "origin moved by %s (one atom per cell)" % (sh,), "reference": str(ref)[:200], "got": str(got)[:200]})
+                    return {"reproduced": True, "failing_inputs": fails}
+        except Exception as e:  # noqa
+            fails.append({"sg": sg1, "observed": "%s: %s" % (type(e).__name__, str(e)[:200])})
     for sg in groups[:6]:
         L = _sym.letters_of(sg)
         P1, P2, P3 = {"x": 0.2113, "y": 0.0687, "z": 0.3391}, {"x": 0.0641, "y": 0.3727, "z": 0.1583}, {"x": 0.3019, "y": 0.1291, "z": 0.0877}
